@@ -447,12 +447,20 @@ func (c *ctx) genStructObject(depth int, id, force string) *Shape {
 	case "P7":
 		var choice *Shape
 		if c.cfg.OneOf && r.Chance(70) {
-			if r.Bool() {
+			// the zero values of both key types ("" and 0) are legal member keys
+			switch r.Intn(4) {
+			case 0:
 				choice = &Shape{Kind: KOneOfStr, Disc: "kind", Inlined: true, Members: []*Member{
 					{KeyS: "first", T: c.genStructObject(depth+1, c.nextID("P4o"), "P4")}, {KeyS: "second", T: c.genStructObject(depth+1, c.nextID("P4o"), "P4b")}}}
-			} else {
+			case 1:
+				choice = &Shape{Kind: KOneOfStr, Disc: "kind", Inlined: true, Members: []*Member{
+					{KeyS: "", T: c.genStructObject(depth+1, c.nextID("P4o"), "P4")}, {KeyS: "second", T: c.genStructObject(depth+1, c.nextID("P4o"), "P4b")}}}
+			case 2:
 				choice = &Shape{Kind: KOneOfStr, Disc: "_type", Inlined: false, Members: []*Member{
-					{KeyS: "five", T: p5("P5")}, {KeyS: "one", T: p1("P1")}}}
+					{KeyS: "five", T: p5("P5")}, {KeyS: "", T: p1("P1")}}}
+			default:
+				choice = &Shape{Kind: KOneOfInt, Disc: "_type", Inlined: false, Members: []*Member{
+					{KeyI: 0, T: p5("P5")}, {KeyI: 7, T: p1("P1")}}}
 			}
 		} else {
 			choice = &Shape{Kind: KAny}
@@ -757,8 +765,11 @@ func GenObjectStandalone(r *wk.Rand, cfg Cfg) *Shape {
 var pointerFields = map[string]map[string]bool{
 	"P1": {"c": true, "d": true}, "*P1": {"c": true, "d": true}, "P3": {"pinner": true, "n": true},
 	"P4b": {"z": true}, "P7": {"opt": true, "choice": true}, "P2": {"extra": true},
-	"P10": {"a": true, "b": true, "c": true}, "*P10": {"a": true, "b": true, "c": true}, "P11": {"n": true, "m": true}, "P12": {"tag": true}, "P13": {"limit": true},
+	"P10": {"a": true, "b": true, "c": true}, "*P10": {"a": true, "b": true, "c": true}, "P11": {"n": true, "m": true}, "P12": {"tag": true}, "P13": {"limit": true}, "P16": {"x": true, "y": true}, "P17": {"x": true, "z": true},
 }
+
+// PointerField reports whether the property is mapped to a pointer field of the pool struct.
+func PointerField(structName, prop string) bool { return pointerFields[structName][prop] }
 
 // AllAbsentable reports whether every property of a struct-mapped object is mapped to a field that can
 // represent absence (so presence rules are meaningful on its native values).
